@@ -230,8 +230,11 @@ def flatten(v):
 def interpret(prog, o, fn, consts):
     """Concrete MIR interpretation of the target on one input vector -> flat ints | 'panic'."""
     sym = Sym(prog, consts)
-    argvals = [sym.make(aty, an) for (an, aty) in o["args"]]
-    symargs = dict(zip([a for a, _ in o["args"]], argvals))
+    if o.get("build_args"):
+        symargs, argvals = o["build_args"](sym, {})
+    else:
+        argvals = [sym.make(aty, an) for (an, aty) in o["args"]]
+        symargs = dict(zip([a for a, _ in o["args"]], argvals))
     symargs["__consts__"] = consts
     ex = Executor(prog, unroll=o.get("unroll", 8) + 64, models=_extra_models(o, symargs) + _models.MODELS)
     ex.const_env = o.get("const_generics", {})
@@ -338,7 +341,7 @@ def run_obligation(prop, o, tier):
             agg["sweep_values"] = 1
         else:
             agg["sweep_values"] += 1
-            for k in ("solver_queries", "solver_s"):
+            for k in ("solver_queries", "solver_s", "sym_states", "sym_transitions", "native_vectors"):
                 agg[k] = agg.get(k, 0) + r.get(k, 0)
         if r["verdict"] != "holds":
             r["detail"] = f"[{var}={v}] " + r.get("detail", "")
@@ -367,10 +370,13 @@ def run_obligation_one(prop, o, tier, bind):
             sym.partial = dict(bind)
         args = {}
         argvals = []
-        for (an, aty) in o["args"]:
-            v = sym.make(aty, an)
-            args[an] = v
-            argvals.append(v)
+        if o.get("build_args"):
+            args, argvals = o["build_args"](sym, bind or {})
+        else:
+            for (an, aty) in o["args"]:
+                v = sym.make(aty, an)
+                args[an] = v
+                argvals.append(v)
         pre = list(sym.assumes)
         if o.get("pre"):
             pre.append(o["pre"](args))
@@ -393,6 +399,9 @@ def run_obligation_one(prop, o, tier, bind):
         return res
     res["paths"] = len(paths)
     res["mir_functions"] = len(ex.called)
+    res["sym_states"] = len(paths) + len(ex.obligations)
+    res["sym_transitions"] = ex.nblocks
+    res["native_vectors"] = int((res.get("translation_validation") or {}).get("validated", 0))
     # ---- 1. panic freedom (every MIR assert / unwrap / unreachable / unwinding cut)
     allowed = o.get("panic_allowed")  # None | callable(args) -> Bool term: panics are in scope only when this is false
     pan = []
@@ -492,8 +501,11 @@ def replay_violation(prop, o, cex, detail):
         fn = find_target(prog, o["fn"])
         full = dict(cex)
         sym0 = Sym(prog)
-        for (an, aty) in o["args"]:
-            sym0.make(aty, an)
+        if o.get("build_args"):
+            o["build_args"](sym0, {})
+        else:
+            for (an, aty) in o["args"]:
+                sym0.make(aty, an)
         for name in sym0.vars:
             full.setdefault(name, 0)
         mine = interpret(prog, o, fn, full)
@@ -574,10 +586,13 @@ def replay_file(prop, path):
     sym = Sym(prog, consts)
     args = {}
     argvals = []
-    for (an, aty) in o["args"]:
-        v = sym.make(aty, an)
-        args[an] = v
-        argvals.append(v)
+    if o.get("build_args"):
+        args, argvals = o["build_args"](sym, {})
+    else:
+        for (an, aty) in o["args"]:
+            v = sym.make(aty, an)
+            args[an] = v
+            argvals.append(v)
     args["__consts__"] = consts
     ex = Executor(prog, unroll=o.get("unroll", 8) + 64, models=_extra_models(o, args) + _models.MODELS)
     ex.const_env = o.get("const_generics", {})
